@@ -30,7 +30,7 @@ ASSUMPTIONS = [
     "sympy differentiation is trusted for the harness's own Taylor coefficients of the scalar functions",
     "float encodings are compared to 1e-9 x size of terms; exact encodings with ==",
 ]
-BUDGET = {"quick": dict(cases=130, seconds=75), "thorough": dict(cases=2400, seconds=540)}
+BUDGET = {"quick": dict(cases=130, seconds=300), "thorough": dict(cases=2400, seconds=540)}
 CASE_TIMEOUT = 200
 MONITORS = {"poison": True, "product": False, "solvers": False}
 MONITOR_VERDICTS = ("fp", "nonfinite", "write")
